@@ -6,11 +6,15 @@
     lists the normalised names in order; the table walk puts the converted time
     cells, in row order, into the timestamps and each cell into the column of
     its header, in row order, wherever the time column stands.
-    PARTIAL: splitting the text into lines and cells (strip, split on newline and
-    comma) and the name normalisation regexes are tied to the code by the
-    correspondence check, not by a theorem. *)
+    The reader as a whole (proofs/CsvFidelity.v): on the text of any well-formed
+    table -- cells without comma and line break, one row per line -- the trace has
+    the converted time cells as time stamps and every signal holds, at index i, the
+    cell of row i in its column (splitting inverts joining, then the two walks).
+    PARTIAL: the name normalisation regexes ([norm_csv_name]) are tied to the code
+    by the correspondence check, not by a theorem; files are read as text by the
+    runtime. *)
 From WalModel Require Import Csv.
-From WalModel.proofs Require Import ArithProofs CsvProofs.
+From WalModel.proofs Require Import ArithProofs CsvProofs CsvFidelity.
 Local Open Scope Z_scope.
 
 Theorem ns_conversion_fraction : forall pre post,
@@ -62,3 +66,65 @@ Example table_example :
   csv_rows [["1";"0.5";"x"]; ["0";"1.5";"1"]] ["a"; "Time [s]"; "b"] 1 (empty_cols ["a"; "b"]) [] =
   Some ([("a", ["1"; "0"]); ("b", ["x"; "1"])], [500000000; 1500000000]).
 Proof. vm_compute. reflexivity. Qed.
+
+(** the reader as a whole.  [render]: cells joined by commas, rows by line breaks; [wf_table]: what a table must
+    satisfy (spelled out below); the text may end in white space, as files do. *)
+Theorem csv_fidelity : forall tid file text header rows p,
+  strip text = render header rows -> wf_table header rows p ->
+  exists t times,
+    csv_parse tid file text = POk t /\
+    map (fun row => match nth_error row p with Some cell => csv_time cell | None => None end) rows = map Some times /\
+    tr_ts t = times /\ tr_all_ts t = times /\ tr_lookup t = None /\ tr_index t = 0 /\ tr_max t = zlen rows - 1 /\
+    tr_tid t = tid /\ tr_virt t = [] /\
+    tr_raw t = map norm_csv_name (filter nontime header) /\
+    forall k h, nth_error header k = Some h -> k <> p ->
+      (forall j h', nth_error header j = Some h' -> j <> p -> j <> k -> norm_csv_name h' <> norm_csv_name h) ->
+      forall i, access_data t (norm_csv_name h) i = option_map (fun row => nth k row "") (znth rows i).
+Proof. exact CsvFidelity.csv_fidelity. Qed.
+Print Assumptions csv_fidelity.
+
+Theorem csv_fidelity_of_a_file : forall tid file header rows p w,
+  edges_ok (render header rows) = true -> sall is_pyspace w = true -> wf_table header rows p ->
+  exists t times,
+    csv_parse tid file (render header rows ++ w) = POk t /\
+    map (fun row => match nth_error row p with Some cell => csv_time cell | None => None end) rows = map Some times /\
+    tr_ts t = times /\ tr_max t = zlen rows - 1 /\
+    tr_raw t = map norm_csv_name (filter nontime header) /\
+    forall k h, nth_error header k = Some h -> k <> p ->
+      (forall j h', nth_error header j = Some h' -> j <> p -> j <> k -> norm_csv_name h' <> norm_csv_name h) ->
+      forall i, access_data t (norm_csv_name h) i = option_map (fun row => nth k row "") (znth rows i).
+Proof. exact CsvFidelity.csv_fidelity_of_a_file. Qed.
+Print Assumptions csv_fidelity_of_a_file.
+
+Theorem well_formed_table_means : forall header rows p, wf_table header rows p <->
+  (nth_error header p = Some time_header /\
+   (forall j, nth_error header j = Some time_header -> j = p) /\
+   ok_from [] header /\
+   Forall (fun s => free comma s /\ free nl s) header /\
+   Forall (Forall (fun s => free comma s /\ free nl s)) rows /\
+   (forall row, In row rows -> List.length row = List.length header) /\
+   (forall row, In row rows -> exists cell t, nth_error row p = Some cell /\ csv_time cell = Some t)).
+Proof.
+  intros. split.
+  - intros [H1 H2 H3 H4 H5 H6 H7]. repeat split; assumption.
+  - intros (H1 & H2 & H3 & H4 & H5 & H6 & H7). split; assumption.
+Qed.
+Print Assumptions well_formed_table_means.
+
+Theorem render_is : forall header rows,
+  render header rows = sjoin (String nl "") (map (sjoin (String comma "")) (header :: rows)).
+Proof. reflexivity. Qed.
+Print Assumptions render_is.
+
+Theorem splitting_inverts_joining : forall c l, l <> [] -> Forall (free c) l -> ssplit_char c (sjoin (String c "") l) = l.
+Proof. exact split_join. Qed.
+Print Assumptions splitting_inverts_joining.
+
+(** a table meeting the premises (time column in the middle, a fraction, a bus column, trailing line break) *)
+Example a_well_formed_table : wf_table demo_header demo_rows 1.
+Proof. exact demo_wf. Qed.
+Example it_reads_back : exists t,
+  csv_parse "t" "f.csv" (render demo_header demo_rows ++ String nl "") = POk t /\
+  tr_ts t = [0; 500000000; 2000000000] /\ tr_raw t = ["Chan_0"; "Data_"] /\
+  access_data t "Data_" 1 = Some "0.5".
+Proof. exact demo_reads_back. Qed.
